@@ -313,6 +313,49 @@ def repr_selection_tie(chk, inproc, tier):
     chk.bump("repr_hint_lists", len(rcs))
 
 
+TF_ARGS = [("repr", "TARepr"), ("repr(u8)", "TAReprTypes"), ("repr(u8, i16)", "TAReprTypes"), ("foo", "TAInvalid"),
+           (None, "TAInvalid"), ("repr = 1", "TAInvalid"), ("repr()", "TAReprTypes")]
+
+
+def decision_tie(chk, inproc):
+    """which items get an impl at all: real `try_from::expand` vs the model's expand_decision, on every combination of item
+    kind x repr attributes x up to two `#[try_from(..)]` attributes (and some triples)"""
+    import itertools
+    kinds = [("KEnum", "enum E { A, B }"), ("KEnum", "enum E { A(u8) }"), ("KStruct", "struct E { a: u8 }"), ("KUnion", "union E { a: u8 }")]
+    reprs = [[], [["u8"]], [["C", "i16"]], [["u8"], ["u8"]]]
+    tfs = [()] + [(a,) for a in TF_ARGS] + list(itertools.product(TF_ARGS, repeat=2)) + \
+        [(TF_ARGS[0],) * 3, (TF_ARGS[1],) * 3, (TF_ARGS[1], TF_ARGS[2], TF_ARGS[0])]
+    combos = [(k, r, tf) for k in kinds for r in reprs for tf in tfs]
+    reqs, exprs = [], []
+    for (kc, item), r, tf in combos:
+        attrs = " ".join("#[repr(%s)]" % ", ".join(a) for a in r) + " " + \
+            " ".join("#[try_from]" if a[0] is None else "#[try_from(%s)]" % a[0] for a in tf)
+        reqs.append({"cmd": "expand", "derive": "TryFrom", "item": attrs + " " + item})
+        exprs.append("expand_decision %s %s [%s]" % (kc, G.coq_attrs({"repr_attrs": r}), "; ".join(a[1] for a in tf)))
+    res = common.run_jsonl(inproc, reqs)
+    terms = common.coq_eval(["Verif.C12.Model"], exprs, tag="c12d")
+    for rq, r, t in zip(reqs, res, terms):
+        chk.count(("decision", rq["item"]), True)
+        try:
+            if isinstance(r, dict) and "err" in r:
+                real = "DError"
+            elif isinstance(r, dict) and "ok" in r and r.get("items") == []:
+                real = "DNoImpl"
+            elif inproc_view(r) is not None:
+                real = "DImpl"
+            else:
+                cls, why = unreadable_class(r)
+                chk.violation(cls, {"rust": rq["item"], "response": str(r)[:800]}, "%s: %s" % (rq["item"], why))
+                continue
+            if real != t:
+                chk.violation("tie-model-decision", {"rust": rq["item"], "model": t, "code": real, "response": str(r)[:300]},
+                              "expand_decision says %s but the expander %s on `%s`" %
+                              (t, {"DError": "reports an error", "DNoImpl": "emits nothing", "DImpl": "emits an impl"}[real], rq["item"]))
+        except Exception as e:
+            chk.violation("expander-output-unreadable", {"rust": rq["item"], "response": str(r)[:800]}, "%s: %s" % (type(e).__name__, e))
+    chk.bump("attribute_decision_combinations", len(combos))
+
+
 # ------------------------------------------------------------------ the check
 
 def run(tier, seed, replay):
@@ -349,9 +392,11 @@ def run(tier, seed, replay):
     # ---- 2. the model on the same declarations (first pass: everything that does not need run-time points)
     paren = "true" if flags["splice_parenthesised"] else "false"
     onrepr = "true" if flags["generics_on_repr"] else "false"
-    pre = ["(gen_header %s %s %s %s, map (fun p => (const_name (fst p), snd p)) (consts %s %s), repr_of %s)" %
+    pre = ["(gen_header %s %s %s %s, map (fun p => (const_name (fst p), snd p)) (consts %s %s), repr_of %s, gen_header_full %s %s %s %s %s)" %
            (onrepr, common.coq_str(G.language_repr(c)), common.coq_str("E"), G.coq_generics(c), paren,
-            G.coq_variants(c), G.coq_attrs(c)) for c in cases]
+            G.coq_variants(c), G.coq_attrs(c),
+            onrepr, common.coq_str(G.language_repr(c)), common.coq_str("E"), G.coq_generics_full(c),
+            common.coq_str(strip_ws(G.where_clause(c)[len("where"):]) if G.where_clause(c) else "")) for c in cases]
     pre_terms = common.coq_eval(["Verif.C12.Model"], pre, batch=max(4, len(pre) // 16 + 1), tag="c12a")
     predicted_header_bad = set()
     wrong_repr = set()
@@ -360,7 +405,7 @@ def run(tier, seed, replay):
             v = views[c["id"]]
             if v is None:
                 continue
-            hdr, mconsts, mrepr = t
+            hdr, mconsts, mrepr, hfull = t
             lrepr = G.language_repr(c)
             # model repr vs the repr the real expander used
             m = re.match(r"derive_more::core::convert::TryFrom<(\w+)", v["trait"])
@@ -383,6 +428,15 @@ def run(tier, seed, replay):
                 chk.violation("generic-enum-header", {"case": c, "rust": G.enum_item(c), "impl_params": v["params"], "impl_where": v["where"]},
                               "%s: the impl has parameters %s where %s" % (G.enum_item(c, False).replace("\n", " "), v["params"], v["where"]))
                 predicted_header_bad.add(c["id"])
+            # the full header of the model: parameters with bounds and without defaults, where-clause
+            fparams = []
+            for (gpar, bnd) in hfull["hf_params"]:
+                nm, b = common.py_str(gpar[1]), common.py_str(bnd)
+                fparams.append(("const" + nm + ":" + b) if gpar[0] == "GConst" else (nm + (":" + b if b else "")))
+            fwhere = [common.py_str(hfull["hf_where"])] if hfull["hf_where"] else []
+            if (fparams, fwhere) != (v["params"], v["where"]):
+                chk.violation("tie-model-header", {"case": c, "model": [fparams, fwhere], "code": [v["params"], v["where"]]},
+                              "gen_header_full and the expander disagree on the impl parameters / where-clause of %s" % c["id"])
             real_params_unbounded = [x.split("=")[0] if x.startswith("const") else x.split("=")[0].split(":")[0] for x in v["params"]]
             if (mp, mt, ms) != (real_params_unbounded, v["trait"], v["self"]):
                 chk.violation("tie-model-header", {"case": c, "model": [mp, mt, ms], "code": [v["params"], v["trait"], v["self"]]},
@@ -413,6 +467,7 @@ def run(tier, seed, replay):
     # ---- 3. repr selection on arbitrary hint lists (in-process only: rustc rejects most of these enums)
     if not replay:
         repr_selection_tie(chk, inproc, tier)
+        decision_tie(chk, inproc)
 
     # ---- 4. the real macro, compiled and run (modules whose expansion is for another repr, or that the
     #         expander refused, are already reported and stay out)
